@@ -3,7 +3,7 @@
    the extracted datatypes. *)
 From Coq Require Import ZArith List Floats.
 From Coq Require Import ExtrOcamlBasic ExtrOCamlFloats ExtrOCamlInt63.
-From SC Require Import Num Vec3 Kernel FloatIO Grid Integrator CellCycle Mesh Geometry Forces MeshOps Population.
+From SC Require Import Num Vec3 Kernel FloatIO Grid Integrator CellCycle Mesh Geometry Forces MeshOps Population Vtk.
 
 Definition kernel_f := kernel NumF.
 
@@ -66,6 +66,10 @@ Definition pop_init := init_pop.
 Definition pop_step := pstep.
 Definition pop_inv_b := popinv_b.
 
+(* C16/C17: cell-data file at token level (numerals and their values are supplied by the driver) *)
+Definition vtk_write := @write_file.
+Definition vtk_read := @read_file.
+
 Extraction Language OCaml.
 Extraction "model.ml" NumF kernel_f
   grid_dims_f grid_idx3_f grid_in_range_f grid_flat_f grid_empty_f grid_place_f grid_nbh_f grid_content_f grid_content_at_f
@@ -76,4 +80,5 @@ Extraction "model.ml" NumF kernel_f
   mesh_valid_surface_b mesh_valid_dump_b mesh_connected_b
   frc_refresh_f frc_pressure_f frc_tension_f frc_anglereg_f frc_bending_f
   ops_replay_f ops_guards_f
-  pop_init pop_step pop_inv_b.
+  pop_init pop_step pop_inv_b
+  vtk_write vtk_read.
